@@ -285,7 +285,7 @@ class Composition(Loggable):
                     f"or increase the adapter's delay."
                 )
 
-        chain[comp] = None
+        chain[comp] = (None, False)
 
         if isinstance(comp, ITimeComponent):
             target_time = comp.next_time
@@ -299,6 +299,7 @@ class Composition(Loggable):
                     chain[comp] = (local_time - dep.time, delayed)
                     return self._update_recursive(c, chain)
             else:
+                chain[comp] = (None, delayed)
                 updated = self._update_recursive(c, chain, local_time)
                 if updated is not None:
                     return updated
